@@ -8,6 +8,9 @@ pub fn run(id: &str, tier: &str, seed: u64) -> Result<String, String> {
         n if n.starts_with("try-") => codec_try(&n[4..]),
         "cram-codecs-roundtrip" => cram_codecs_roundtrip(tier, seed, None),
         "cram-decoders-hostile" => cram_decoders_hostile(tier, seed),
+        n if n.starts_with("file-") && n.contains(':') => { let (t, h) = n[5..].split_once(':').unwrap(); let x: Vec<u8> = (0..h.len() / 2).map(|i| u8::from_str_radix(&h[2 * i..2 * i + 2], 16).unwrap()).collect(); let ts = crate::hostile::targets(); let t = ts.iter().find(|k| k.name == t).ok_or("unknown target")?; (t.run)(&x); Ok("\"ran\":1".into()) }
+        "file-mutations" => crate::hostile::parent(tier, None),
+        n if n.starts_with("file-mutations-") => crate::hostile::parent(tier, Some(&n[15..])),
         n if n.starts_with("dec-") => { let (d, h) = n[4..].split_once(':').ok_or("dec-<decoder>:<hex>")?; let x: Vec<u8> = (0..h.len() / 2).map(|i| u8::from_str_radix(&h[2 * i..2 * i + 2], 16).unwrap()).collect(); let r = run_decoder(d, &x); Ok(format!("\"result\":{:?}", r.map(|v| v.len()).map_err(|e| e.to_string()))) }
         n if n.starts_with("cram-codec-") => cram_codecs_roundtrip(tier, seed, Some(&n[11..])),
         _ => Err(format!("unknown bounded check {id}")),
@@ -130,9 +133,9 @@ fn codec_try(arg: &str) -> Result<String, String> {
 // process whose allocator refuses any single request above 1 GiB (deterministic; see main.rs), with a per-input hang watchdog; inputs are its own encodings of a few payloads with
 // every single-byte substitution from a small set, every truncation, and PRNG strings.  A panic, an abort (allocation
 // failure), or a case that does not finish is a failure; Ok or Err is fine.
-pub const HANG_S: u64 = 120;
+pub const HANG_S: u64 = 30;
 pub const DECODERS: [&str; 6] = ["rans4x8", "ransnx16", "aac", "tok3", "fqzcomp", "ransnx16-len0"];
-fn hex(x: &[u8]) -> String { x.iter().map(|b| format!("{b:02x}")).collect() }
+pub fn hex(x: &[u8]) -> String { x.iter().map(|b| format!("{b:02x}")).collect() }
 fn decoder_seeds(dec: &str) -> Vec<Vec<u8>> {
     use noodles_cram::codecs::{rans_4x8, rans_nx16, aac, verif_hooks as vh};
     let payloads: Vec<Vec<u8>> = vec![b"".to_vec(), b"a".to_vec(), b"abracadabra".to_vec(), vec![7u8; 40], (0..=255u8).collect(), prng(11, 300).iter().map(|b| b % 5).collect()];
@@ -203,20 +206,26 @@ pub fn decoder_child(dec: &str, tier: &str, seed: u64, cur_path: &str, start: us
     CASE_START.store(0, std::sync::atomic::Ordering::Relaxed);
     println!("DONE {n}");
 }
-fn cram_decoders_hostile(tier: &str, seed: u64) -> Result<String, String> {
+fn cram_decoders_hostile(tier: &str, _seed: u64) -> Result<String, String> {
+    run_children(&DECODERS, "child-dec-", tier, "cram codec decoders")
+}
+/// Runs `<exe> <prefix><name>` for every name in a child process (allocation cap + hang watchdog inside the child), restarting after
+/// an input that kills the child, and groups the failures by kind (panic site / abort / hang).
+pub fn run_children(names: &[&str], prefix: &str, tier: &str, label: &str) -> Result<String, String> {
     use std::collections::BTreeMap;
     let exe = std::env::current_exe().map_err(|e| e.to_string())?;
     let mut cases = 0u64;
-    // failure kind (panic site / abort / hang) -> (entry decoders that reach it, shortest (decoder, input))
+    let mut big_requests = 0u64;
+    // failure kind -> (entry points that reach it, shortest (entry point, input))
     let mut fails: BTreeMap<String, (std::collections::BTreeSet<String>, String, String)> = BTreeMap::new();
-    for dec in DECODERS {
+    for dec in names {
         let cur = std::env::temp_dir().join(format!("verif-native-cur-{}-{}", std::process::id(), dec));
         let limit = if tier == "thorough" { 3000 } else { 1500 };
         let mut start = 0usize;
         let mut restarts = 0;
         loop {
             let out = std::process::Command::new("sh").arg("-c")
-                .arg(format!("ulimit -v 33554432; exec timeout {limit} {} child-dec-{dec} --tier {tier} --seed {seed} --cur {} --start {start} 2>/dev/null", exe.display(), cur.display()))
+                .arg(format!("ulimit -v 33554432; exec timeout {limit} {} {prefix}{dec} --tier {tier} --cur {} --start {start}", exe.display(), cur.display()))
                 .output().map_err(|e| e.to_string())?;
             let text = String::from_utf8_lossy(&out.stdout).to_string();
             let mut done = false;
@@ -234,14 +243,25 @@ fn cram_decoders_hostile(tier: &str, seed: u64) -> Result<String, String> {
             // the child died on one input: record it and carry on after it
             let c = std::fs::read_to_string(&cur).unwrap_or_default();
             let (idx, h) = c.split_once(' ').unwrap_or(("", ""));
-            if out.status.code() == Some(124) { return Err(format!("UNDECIDED: decoder {dec} did not finish its inputs within {limit} s of wall clock")); }
-            let kind = match out.status.code() { Some(3) => format!("HANGS (no result within {HANG_S} s)"), Some(c) => format!("process exits with code {c}"), None => format!("ABORTS the process in {dec} (a single allocation request above 1 GiB, or a signal)") };
-            note(kind, h);
+            if out.status.code() == Some(124) { return Err(format!("UNDECIDED: {dec} did not finish its inputs within {limit} s of wall clock")); }
+            // the child's allocator refuses single requests above 1 GiB (main.rs); Rust then prints the size and aborts.
+            // A request up to 5 GiB (a 32-bit length field taken at face value) is only COUNTED — a host with enough memory serves
+            // it; a larger one (a count multiplied by an element size) is a failure: no common host can serve it.
+            let err = String::from_utf8_lossy(&out.stderr).to_string();
+            let req = err.lines().rev().find_map(|l| l.strip_prefix("memory allocation of ").and_then(|r| r.split(' ').next()).and_then(|n| n.parse::<u64>().ok()));
+            let kind = match (out.status.code(), req) {
+                (Some(3), _) => Some(format!("HANGS in {dec} (no result within {HANG_S} s)")),
+                (Some(c), _) => Some(format!("process exits with code {c} in {dec}")),
+                (None, Some(n)) if n <= 5 << 30 => { big_requests += 1; None }
+                (None, Some(_)) => Some(format!("ABORTS the process in {dec} (a single allocation request above 5 GiB)")),
+                (None, None) => Some(format!("ABORTS the process in {dec} (signal)")),
+            };
+            if let Some(kind) = kind { note(kind, h); }
             restarts += 1;
-            match idx.parse::<usize>() { Ok(k) if restarts < 200 => { cases += (k + 1 - start) as u64; start = k + 1; } _ => break }
+            match idx.parse::<usize>() { Ok(k) if restarts < 2000 => { cases += (k + 1 - start) as u64; start = k + 1; } _ => break }
         }
         let _ = std::fs::remove_file(&cur);
     }
-    if fails.is_empty() { Ok(format!("\"cases\":{cases}")) }
-    else { Err(format!("FAILURES\n{}", fails.iter().map(|(k, (ds, d, h))| format!("cram codec decoders: {k} on arbitrary bytes; reached through {}; shortest such input found: {d} {} bytes {}", ds.iter().cloned().collect::<Vec<_>>().join(","), h.len() / 2, if h.len() > 200 { format!("{}...", &h[..200]) } else { h.clone() })).collect::<Vec<_>>().join("\n"))) }
+    if fails.is_empty() { Ok(format!("\"cases\":{cases},\"inputs_requesting_1_to_5_GiB_at_once\":{big_requests}")) }
+    else { Err(format!("FAILURES\n{}", fails.iter().map(|(k, (ds, d, h))| format!("{label}: {k} on arbitrary bytes; reached through {}; shortest such input found: {d} {} bytes {}", ds.iter().cloned().collect::<Vec<_>>().join(","), h.len() / 2, if h.len() > 1600 { format!("{}...", &h[..1600]) } else { h.clone() })).collect::<Vec<_>>().join("\n"))) }
 }
